@@ -42,6 +42,9 @@ structure SpecWorld where
   cachesExact : Bool := true
   /-- files the script planted while no series existed (role name, bytes) -/
   stale : List (String × Bytes) := []
+  /-- the data file was planted by the script (C07, reverse direction): it conforms to the
+  documented layout and decodes to `log`, but its bytes need not be the canonical encoding -/
+  foreign : Bool := false
   snaps : List (Nat × Bool × Nat × Bytes × List Entry × Bool × Bool) := []
 deriving Inhabited
 
@@ -188,6 +191,7 @@ def step (w : SpecWorld) (op : Op) : SpecWorld × String :=
     if !w.created then
       let items := (w.stale.toArray.qsort (fun a b => a.1 < b.1)).toList
       (w, "= ok" ++ String.join (items.map fun (n, b) => fileItem n b))
+    else if w.foreign then (w, "~none")
     else
     let items := fileItem "data" (dataFile w.p w.hdr w.log) ++ fileItem "index" (indexFile w.p w.log)
     let citems := (if w.cachesExact then w.caches else []).map fun B =>
@@ -210,7 +214,15 @@ def step (w : SpecWorld) (op : Op) : SpecWorld × String :=
   | .put r b =>
     if !w.created then
       match r with
-      | .data => ({ w with tainted := true }, "~none")
+      | .data =>
+        -- a file laid out as documented is a series: the independent reference decoder says which
+        match refDecodeFile b with
+        | some (user, p, xs) =>
+          let sorted := (xs.zip (xs.drop 1)).all fun (a, c) => decide (a.ts < c.ts)
+          if sorted && xs.all (fun e => e.pl.length == p) then
+            ({ w with created := true, p := p, hdr := user, log := xs, foreign := true }, "~none")
+          else ({ w with tainted := true }, "~none")
+        | none => ({ w with tainted := true }, "~none")
       | _ => ({ w with stale := (roleName r, b) :: w.stale.filter (·.1 != roleName r) }, "~none")
     else
     match r with
